@@ -13,7 +13,7 @@ struct Assumptions;
 struct RealVisitor; struct PositiveVisitor; struct NegativeVisitor; struct IntegerVisitor; struct ComplexVisitor;
 struct Basic {
   int re, im;                                  /* ghost value */
-  tribool real_answer, pos_answer, neg_answer, int_answer, cplx_answer; /* what the visitors answer for this child: any SOUND tribool (harness assumption) */
+  tribool real_answer, pos_answer, neg_answer, int_answer, cplx_answer, nonpos_answer, nonneg_answer, zero_answer; /* what the visitors answer for this child: any SOUND tribool (harness assumption) */
   bool finite;                                 /* ghost: the child's value is a (finite) complex number; false models zoo / nan / oo */
   void accept(RealVisitor &v) const;
   void accept(PositiveVisitor &v) const;
@@ -30,6 +30,10 @@ struct term_dict { dict_entry e[MAXT]; unsigned n; unsigned size() const { retur
 struct Add { RCPBasic coef; term_dict dict; vec_basic args; RCPBasic get_coef() const { return coef; } term_dict get_dict() const { return dict; } vec_basic get_args() const { return args; } };
 struct Mul { RCPBasic coef; term_dict dict; vec_basic args; RCPBasic get_coef() const { return coef; } term_dict get_dict() const { return dict; } vec_basic get_args() const { return args; } };
 struct NegativeVisitor { Assumptions *a; NegativeVisitor(Assumptions *x) { a = x; } tribool apply(const Basic &b) { return b.neg_answer; } };
+/* the sibling sign visitors, each by its CONTRACT (a sound answer about the child): a maintenance edit may pick any of them */
+struct NonPositiveVisitor { Assumptions *a; NonPositiveVisitor(Assumptions *x) { a = x; } tribool apply(const Basic &b) { return b.nonpos_answer; } };
+struct NonNegativeVisitor { Assumptions *a; NonNegativeVisitor(Assumptions *x) { a = x; } tribool apply(const Basic &b) { return b.nonneg_answer; } };
+struct ZeroVisitor { Assumptions *a; ZeroVisitor(Assumptions *x) { a = x; } tribool apply(const Basic &b) { return b.zero_answer; } };
 struct RealVisitor {
   tribool is_real_; Assumptions *assumptions_;
   void bvisit_Add(const Add &x); void bvisit_Mul(const Mul &x);
@@ -53,6 +57,8 @@ static void any_child(Basic &c, int lo, int hi)
 {
   c.re = nondet_int(); c.im = nondet_int(); __CPROVER_assume(lo <= c.re && c.re <= hi && lo <= c.im && c.im <= hi);
   c.real_answer = any_tribool(); c.pos_answer = any_tribool(); c.neg_answer = any_tribool(); c.int_answer = any_tribool(); c.cplx_answer = any_tribool(); c.finite = true;
+  c.nonpos_answer = any_tribool(); c.nonneg_answer = any_tribool(); c.zero_answer = any_tribool();
+  __CPROVER_assume(sound(c.nonpos_answer, c.im == 0 && c.re <= 0) && sound(c.nonneg_answer, c.im == 0 && c.re >= 0) && sound(c.zero_answer, c.im == 0 && c.re == 0));
   __CPROVER_assume(sound(c.int_answer, c.im == 0) && sound(c.cplx_answer, c.finite));      /* re is an integer in this model: 'integer' <=> real */
   __CPROVER_assume(sound(c.real_answer, c.im == 0) && sound(c.pos_answer, c.im == 0 && c.re > 0) && sound(c.neg_answer, c.im == 0 && c.re < 0));
 }
